@@ -112,7 +112,18 @@ def trace(P, fname, page_type, has_crc, verify, stored_crc, computed_crc, codec,
                 sem.set_out(it, a[4], usize)
             return 0
         return h
-    hooks = {"parquet_parse_page_header": parse_hdr, "malloc": malloc,
+    def crc_update(ev, a, it):
+        # chained CRC: consecutive ranges of one buffer folded one after the other are one checksummed range
+        prev, b, n = a[0], bid(a[1]), a[2]
+        last = next((e for e in reversed(ev) if e[0] == "crc"), None)
+        if prev != 0 and last is not None and isinstance(b, tuple) and isinstance(last[1], tuple) and last[1][0] == b[0] and \
+                isinstance(last[2], int) and isinstance(b[1], int) and isinstance(last[1][1], int) and last[1][1] + last[2] == b[1] and isinstance(n, int):
+            i_ = len(ev) - 1 - ev[::-1].index(last)
+            ev[i_] = ("crc", last[1], last[2] + n)
+        else:
+            ev.append(("crc", b, n))
+        return computed_crc
+    hooks = {"parquet_parse_page_header": parse_hdr, "malloc": malloc, "carquet_crc32_update": crc_update,
              "free": lambda ev, a, it: ev.append(("free", bid(a[0]))),
              "read_at": read_at, "fseek": fseek, "fread": fread,
              "mmap_available": lambda ev, a, it: (max(0, fsize - a[1]) if isinstance(a[1], int) and a[1] >= 0 else 0),
